@@ -211,6 +211,10 @@ type Scenario struct {
 	// FixedSeed lets an enumerating scenario pin the seed of a run (so that
 	// every enumerated fault position is applied to the same execution).
 	FixedSeed func(tier string, index int, master uint64) (uint64, bool)
+	// Alt, if set, replaces Run in every run whose index is AltEvery-1 modulo AltEvery, and always runs inside the bubble
+	// with the scheduler (a NoSched scenario's concurrent form).
+	Alt      func(rc *RC)
+	AltEvery int
 }
 
 var scenarios = map[string]*Scenario{}
@@ -252,6 +256,9 @@ func execRun(t *testing.T, sc *Scenario, tier string, seed uint64, index int, ov
 			if rc.S.Pauses > 0 {
 				res.Fired["pause"] += rc.S.Pauses
 			}
+			if rc.S.DensePreempts > 0 {
+				res.Fired["dense-preempt"] += rc.S.DensePreempts
+			}
 		}
 		nfaults := 0
 		for _, v := range res.Fired {
@@ -260,7 +267,11 @@ func execRun(t *testing.T, sc *Scenario, tier string, seed uint64, index int, ov
 		res.Nontrivial = rc.Nontrivial || res.Preemptions > 0 || nfaults > 0
 		res.CaseHash = res.IlvHash ^ hashStr(rc.CaseKey) ^ hashStr(strings.Join(rc.Desc, "|"))
 	}
-	if sc.NoSched {
+	runF, noSched := sc.Run, sc.NoSched
+	if sc.Alt != nil && sc.AltEvery > 0 && index%sc.AltEvery == sc.AltEvery-1 {
+		runF, noSched = sc.Alt, false
+	}
+	if noSched {
 		rc.Ch = simrt.NewChooser(seed, overrides)
 		rc.T = t
 		func() {
@@ -303,7 +314,7 @@ func execRun(t *testing.T, sc *Scenario, tier string, seed uint64, index int, ov
 						rc.Infraf("scenario panic: %v", r)
 					}
 				}()
-				sc.Run(rc)
+				runF(rc)
 			}()
 			finish()
 		})
